@@ -1033,7 +1033,8 @@ example :
 
 /-! ### `Row.__new__`: the object `as_bytes` runs on, from a tuple and from a dictionary -/
 
-/-- `Row.__new__` as written: a tuple is kept; a dictionary (a subclass instance is copied into an exact one first) is
+/-- `Row.__new__` as written: a tuple is kept; a dictionary (a subclass instance is copied into an exact one first, and so
+is a mapping that is not a `dict` at all: `if not isinstance(data, (dict, tuple, list)) and isinstance(data, Mapping)`) is
 laid out by `extract_dict_columns` over the fields of the class. -/
 theorem generated_row_new_eq_model (fields : Option (List String)) (data : RowGlue.NewArg) :
     Gen.RowFns.row_new fields data = RowGlue.rowNewModel fields data := by
@@ -1041,6 +1042,7 @@ theorem generated_row_new_eq_model (fields : Option (List String)) (data : RowGl
   cases data with
   | tuple items => rfl
   | dict e es => cases e <;> rfl
+  | mapping es => rfl
 
 /-- **`cls(tuple)` keeps the items, in order** — what `Row.from_bytes` does with the decoder's tuple and what every
 `R(values)` of the correspondence does: the row object `as_bytes` runs on holds exactly the values given. -/
@@ -1049,13 +1051,16 @@ theorem row_new_tuple (fields : Option (List String)) (items : List PyVal) :
   rw [generated_row_new_eq_model]; rfl
 
 /-- **`cls(dict)` lays the values out by the fields of the class**: field by field, in field order, `None` for a field the
-dictionary lacks, entries that are no field dropped — for an exact dictionary and for an instance of a subclass alike.
+dictionary lacks, entries that are no field dropped — for an exact dictionary, for an instance of a subclass **and for a
+mapping that is not a `dict`** (`UserDict`, `ChainMap`, `MappingProxyType`: never the row of its keys) alike.
 On the class `Row` itself (`_fields` is `None`) it is a `TypeError`. -/
 theorem row_new_dict (e : Bool) (fs : List String) (es : List (String × PyVal)) :
     Gen.RowFns.row_new (some fs) (.dict e es) = .ok (fs.map (fun f => (RowGlue.dictGet es f).getD .none)) ∧
-    Gen.RowFns.row_new none (.dict e es) = .error "TypeError" := by
-  rw [generated_row_new_eq_model, generated_row_new_eq_model]
-  exact ⟨rfl, rfl⟩
+    Gen.RowFns.row_new none (.dict e es) = .error "TypeError" ∧
+    Gen.RowFns.row_new (some fs) (.mapping es) = Gen.RowFns.row_new (some fs) (.dict true es) ∧
+    Gen.RowFns.row_new none (.mapping es) = .error "TypeError" := by
+  simp only [generated_row_new_eq_model]
+  exact ⟨rfl, rfl, rfl, rfl⟩
 
 /-- Looking a field up in the dictionary `{f₁: v₁, …}` made of distinct fields and as many values gives its value. -/
 theorem dict_of_fields (fs : List String) (vs : List PyVal) (hn : fs.Nodup) (hl : fs.length = vs.length) :
